@@ -936,7 +936,7 @@ def run_flags(ctx, h5file):
         vals = [rng.getrandbits(n) if rng.random() < 0.85 else rng.choice([0, (1 << n) - 1, 1 << (n - 1)])
                 for _ in range(rng.randint(1, 5))]
         rnames = list(names)
-        mode = rng.choice(["same", "reorder", "extend", "reorder+extend", "missing", "prefix"])
+        mode = rng.choice(["same", "reorder", "extend", "reorder+extend", "missing", "prefix", "reader-knows-a-prefix"])
         if "reorder" in mode:
             rng.shuffle(rnames)
         if "extend" in mode:
@@ -945,6 +945,12 @@ def run_flags(ctx, h5file):
             rnames = rnames[:pos] + extra + rnames[pos:]
         if mode == "prefix":
             rnames = rnames + [f"X{i}" for i in range(rng.randint(1, 9))]
+        if mode == "reader-knows-a-prefix" and n >= 3 and not wmixed and names == sorted(names, key=lambda x: int(x[1:])):
+            # the file's flag order = the reader's flags followed by SEVERAL flags the reader does not define (plugin
+            # flags registered after the framework's): they are added to the reader and must keep their meaning
+            rnames = names[: rng.randint(1, n - 2)]
+            vals = [v | (1 << (n - 1)) | (1 << rng.randrange(len(rnames), n)) for v in vals]
+            ctx.count("flags: reader knows a strict prefix of the writer's flags (>= 2 unknown flags after them)")
         if mode == "missing":
             rng.shuffle(rnames)
             rnames = [x for x in rnames if rng.random() > 0.3] + ["X0"]
@@ -1326,6 +1332,18 @@ def run_values(ctx, h5file):
         ents = gen_mixed(rng)
         values = [to_py(e) for e in ents]
         res = stack.roundtrip(h5file, values)
+        if res[0] == "ok" and not any("str" in (e[1:3]) for e in ents if e[0] in ("s", "a", "l", "m")):
+            try:
+                bad = numeric_mismatch(values, res[2])
+            except (TypeError, ValueError):
+                bad = None
+            if bad is not None and _classify_failure(ents) == "mixed-kinds-promoted":
+                # the listed finding is a change of KIND; a changed NUMBER (beyond int -> nearest double) is not
+                report(ctx, "value-changed-in-mixed-kind-column", "accepted => same values (a promoted numeric kind is the listed "
+                       "finding; the number must be the one that was stored), shapes and unset positions", {"entries": entries_json(ents)},
+                       observed={"index": bad, "read": repr(res[2][bad])[:200]}, expected=repr(values[bad])[:200])
+                ctx.case(wire(ents), nontrivial=True)
+                continue
         f = oracle(ctx, ents, values, res, "mixed (oracle only)")
         if f is not None:
             report(ctx, f.key, f.clause, f.case, f.observed, f.expected)
@@ -1363,7 +1381,10 @@ def run_values(ctx, h5file):
                 continue
         f = oracle(ctx, ents, values, res, "numeric kind per object (oracle only)")
         if f is not None:
-            report(ctx, f.key, f.clause, f.case, f.observed, f.expected)
+            # accepted and numerically exact (checked above): what differs is the numeric KIND only (ints next to reals, ints
+            # in a dict whose missing keys are NaN-filled) - the listed promotion finding
+            key = "mixed-kinds-promoted" if res[0] == "ok" else f.key
+            report(ctx, key, f.clause, f.case, f.observed, f.expected)
         ctx.case(("kinds", repr(ents)), nontrivial=True)
         # dtype of the stored dataset vs the model (writeParam on the same entries): jagged and plain strategies
         if res[0] == "ok" and res[1] and res[1].split(":")[0] in ("jagged", "plain") and not any(e[0] == "d" for e in ents):
